@@ -262,13 +262,44 @@ theorem int_result_in_range (g : GoVal) (j : Json) (h : Spec.resultCoerce .int g
     · rw [if_neg hr] at h
       exact absurd h (by simp)
 
-/-- Non-vacuity of the range statement: the bounds are attained and the next values are rejected. -/
-example : Spec.resultCoerce .int (.int 2147483647) = some (.int 2147483647) ∧
-    Spec.resultCoerce .int (.int 2147483648) = none ∧
-    Spec.resultCoerce .int (.int (-2147483648)) = some (.int (-2147483648)) ∧
-    Spec.resultCoerce .int (.int (-2147483649)) = none ∧
-    Spec.resultCoerce .int (.flt 5 (-1)) = none ∧ Spec.resultCoerce .int (.flt 3 1) = some (.int 6) := by
-  refine ⟨by rfl, by rfl, by rfl, by rfl, by rfl, by rfl⟩
+/-- Non-vacuity of the range statement: the bounds are attained and the next values are rejected, for
+    every Go integer kind that can hold them — in particular an unsigned 64-bit value at the top of its
+    range is rejected, it does not wrap to a small negative number. -/
+example : Spec.resultCoerce .int (.int .int 2147483647) = some (.int 2147483647) ∧
+    Spec.resultCoerce .int (.int .int 2147483648) = none ∧
+    Spec.resultCoerce .int (.int .i64 (-2147483648)) = some (.int (-2147483648)) ∧
+    Spec.resultCoerce .int (.int .i64 (-2147483649)) = none ∧
+    Spec.resultCoerce .int (.int .u32 4294967295) = none ∧
+    Spec.resultCoerce .int (.int .u64 18446744073709551615) = none ∧
+    Spec.resultCoerce .int (.int .uint 9223372036854775808) = none ∧
+    Spec.resultCoerce .int (.int .i8 (-128)) = some (.int (-128)) ∧
+    Spec.resultCoerce .int (.flt .f64 5 (-1)) = none ∧ Spec.resultCoerce .int (.flt .f32 3 1) = some (.int 6) ∧
+    Spec.resultCoerce .int (.flt .f64 1 63) = none := by
+  refine ⟨by rfl, by rfl, by rfl, by rfl, by rfl, by rfl, by rfl, by rfl, by rfl, by rfl, by rfl⟩
+
+/-- the executor model agrees on each of them (`leaf_coercion` / `coerceScalar_eq` in general) -/
+example : coerceScalar .int (.int .u64 18446744073709551615) = none ∧
+    coerceScalar .id (.int .u64 18446744073709551615) = none ∧
+    coerceScalar .id (.int .u64 9223372036854775808) = none ∧
+    coerceScalar .id (.int .u64 9223372036854775807) = some (.str "9223372036854775807") ∧
+    coerceScalar .id (.int .i64 (-9223372036854775808)) = some (.str "-9223372036854775808") ∧
+    coerceScalar .float (.int .i64 9223372036854775807) = some (.num 9007199254740992 10) ∧
+    coerceScalar .float (.int .u64 18446744073709551615) = some (.num 9007199254740992 11) ∧
+    coerceScalar .float (.int .int 9007199254740993) = some (.num 4503599627370496 1) ∧
+    coerceScalar .float (.int .int 9007199254740995) = some (.num 4503599627370498 1) ∧
+    coerceScalar .boolean (.int .u8 1) = none := by
+  refine ⟨by rfl, by rfl, by rfl, by rfl, by rfl, by rfl, by rfl, by rfl, by rfl, by rfl⟩
+
+/-- **id_result_fits_int64** — an ID produced from an integer is the decimal text of an integer below
+    2^63: an unsigned value beyond `MaxInt64` is rejected, never printed as a negative number. -/
+theorem id_result_fits_int64 (k : IntKind) (z : Int) (j : Json) (h : Spec.resultCoerce .id (.int k z) = some j) :
+    k.wrap z < 2 ^ 63 ∧ j = .str (toString (k.wrap z)) := by
+  simp only [Spec.resultCoerce] at h
+  by_cases hr : k.wrap z < 2 ^ 63
+  · rw [if_pos hr] at h
+    exact ⟨hr, (Option.some.inj h).symm⟩
+  · rw [if_neg hr] at h
+    exact absurd h (by simp)
 
 /-- **enum_result_declared** — an enum result is the name of a declared value whose Go value is the
     resolver's result; anything else fails with "invalid … enum value". -/
@@ -404,7 +435,7 @@ def D : Document :=
             .field ⟨1, 45⟩ none "items" "items" none [] [.spread ⟨1, 53⟩ "F" []]]]]] }],
     frags := [{ name := "F", tc := "Item", sels := [.field ⟨1, 85⟩ none "name" "name" none [] []] }] }
 
-def item (n : Int) (s : String) : RVal := .obj "Item" [.mk "id" (.val (.leaf (.int n))), .mk "name" (.val (.leaf (.str s)))]
+def item (n : Int) (s : String) : RVal := .obj "Item" [.mk "id" (.val (.leaf (.int .int n))), .mk "name" (.val (.leaf (.str s)))]
 
 /-- the second item of the `[Node!]!` list is null -/
 def W : RVal :=
